@@ -94,29 +94,29 @@ def main():
         lambda e: e.update(g=bump(e['g'], 1e-3)))
     tb('molec factor off by 1e-4', {'AmountIsAvogadro'}, ev='unit', name='molec')(
         lambda e: e.update(g=bump(e['g'])))
-    tb('unit typed under another quantity', {'TypeAgreesWithCatalogue', 'DocumentedUnitTyped'}, ev='unit', name='lbs')(
+    tb('unit typed under another quantity', {'TypeAgreesWithCatalogue', 'NoteDocumentedUnitTyped'}, ev='unit', name='lbs')(
         lambda e: e.update(type='pressure'))
-    tb('R(kJ/mol/K) off by 1e-4', {'RTable', 'DocValue'}, ev='R', key='kJ/mol/K')(
+    tb('R(kJ/mol/K) off by 1e-4', {'RTable', 'NoteDocValue'}, ev='R', key='kJ/mol/K')(
         lambda e: e.update(val=bump(e['val'])))
-    tb('R(eV/K) off by 1e-4', {'RTable', 'DocValue'}, ev='R', key='eV/K')(
+    tb('R(eV/K) off by 1e-4', {'RTable', 'NoteDocValue'}, ev='R', key='eV/K')(
         lambda e: e.update(val=bump(e['val'])))
-    tb('kb(J/K) off by 1e-4', {'KbTable', 'RisKbNa', 'DocValue'}, ev='kb', key='J/K')(
+    tb('kb(J/K) off by 1e-4', {'KbTable', 'RisKbNa', 'NoteDocValue'}, ev='kb', key='J/K')(
         lambda e: e.update(val=bump(e['val'])))
-    tb('h(eV s) off by 1e-4', {'HTable', 'HBar', 'DocValue'}, ev='h', key='eV s')(
+    tb('h(eV s) off by 1e-4', {'HTable', 'HBar', 'NoteDocValue'}, ev='h', key='eV s')(
         lambda e: e.update(val=bump(e['val'])))
     tb('hbar(J s) off by 1e-4', {'HBar'}, ev='h', key='J s')(
         lambda e: e.update(bar=bump(e['bar'])))
-    tb('c(cm/s) off by 1e-4', {'CTable', 'DocValue'}, ev='c', key='cm/s')(
+    tb('c(cm/s) off by 1e-4', {'CTable', 'NoteDocValue'}, ev='c', key='cm/s')(
         lambda e: e.update(val=bump(e['val'])))
-    tb('P0(psi) off by 1e-4', {'P0FromSI', 'DocValue'}, ev='acc', fn='P0', key='psi')(
+    tb('P0(psi) off by 1e-4', {'P0FromSI', 'NoteDocValue'}, ev='acc', fn='P0', key='psi')(
         lambda e: e.update(val=bump(e['val'])))
     tb('T0(F) 77 -> 78', {'T0FromSI'}, ev='acc', fn='T0', key='F')(
         lambda e: e.update(val=[78, 0]))
-    tb('V0(L) off by 1e-4', {'V0isRT0overP0', 'DocValue'}, ev='acc', fn='V0', key='L')(
+    tb('V0(L) off by 1e-4', {'V0isRT0overP0', 'NoteDocValue'}, ev='acc', fn='V0', key='L')(
         lambda e: e.update(val=bump(e['val'])))
-    tb('m_e(g) off by 1e-3', {'MassFromTable', 'DocValue'}, ev='acc', fn='m_e', key='g')(
+    tb('m_e(g) off by 1e-3', {'MassFromTable', 'NoteDocValue'}, ev='acc', fn='m_e', key='g')(
         lambda e: e.update(val=bump(e['val'], 1e-3)))
-    tb('P0(kPa) raised', {'AccessorAcceptsTypedUnit', 'DocumentedKeyAccepted'}, ev='acc', fn='P0', key='kPa')(
+    tb('P0(kPa) raised', {'AccessorAcceptsTypedUnit', 'NoteDocumentedKeyAccepted'}, ev='acc', fn='P0', key='kPa')(
         lambda e: e.update(raised=True))
     ev = copy.deepcopy(TB); del ev[find(ev, ev='const', name='Na')]
     add('the Na observation deleted', ev, {'AmountIsAvogadro', 'RTable', 'RisKbNa'})
